@@ -36,7 +36,7 @@ from .errors import (
     MemoryLimitError,
     TimeLimitError,
 )
-from .regex import RegexTimeoutError
+from .regex import RegexTimeoutError, RegexStackOverflow
 from . import _verif
 
 
@@ -287,6 +287,11 @@ class VM:
         except JSSyntaxError as e:
             # Raised by built-ins that parse at run time (JSON.parse, RegExp)
             self._handle_python_exception("SyntaxError", str(e))
+        except RegexStackOverflow:
+            # The matcher's backtrack stack budget is used up
+            self._handle_python_exception(
+                "RangeError", "Regular expression too complex: backtrack stack overflow"
+            )
         except _JSThrow as e:
             # A throw that crossed native code: look for the handler again from here
             self._throw(e.value)
